@@ -49,6 +49,14 @@ def restrict_rules(chk, P, E):
                          "R-GUARD", "I/O or Misc children are dropped only when the corresponding ADAPT flag is not given", min_inst=2)
 
 
+    chk.rule("R-FREERESET", "a child list released by hwloc_free_object_siblings_and_children(x->LIST) is reset (`x->LIST = NULL`, the SAME list head) on every path: "
+             "the dying object's remaining lists are re-attached to its parent afterwards, a stale head would link freed objects")
+    nfr = 0
+    for fn in ("restrict_object_by_cpuset", "restrict_object_by_nodeset"):
+        nfr += guards.free_then_reset(chk, P, fn, "topology.c", ("hwloc_free_object_siblings_and_children",), min_inst=1)
+    chk.floor("R-FREERESET", "released child lists in the restrict walkers", nfr, 3)
+
+
 def run(chk, tier):
     P = Program(("lib",))
     E = effects.Effects(P)
